@@ -2,6 +2,8 @@ pub mod c01;
 pub mod c02;
 pub mod c03;
 pub mod c04;
+pub mod c05;
+pub mod c10;
 
 use crate::report::Report;
 
@@ -36,6 +38,8 @@ pub fn run(id: &str, report: &mut Report, replay: Option<&str>) {
         "C02" => c02::run(report, replay_val.as_ref()),
         "C03" => c03::run(report, replay_val.as_ref()),
         "C04" => c04::run(report, replay_val.as_ref()),
+        "C05" => c05::run(report, replay_val.as_ref()),
+        "C10" => c10::run(report, replay_val.as_ref()),
         _ => {
             eprintln!("unknown property {}", id);
             std::process::exit(2);
